@@ -75,7 +75,7 @@ func AddCheckSum(content string) (string, error) {
 		}
 	}
 
-	return content + string(utils.IntToRune(sum%10)), nil
+	return content + string(utils.IntToRune((10-sum%10)%10)), nil
 }
 
 // Encode creates a codabar barcode for the given content and color scheme
